@@ -24,6 +24,7 @@ IMPLEMENTED_FUNCTIONS = {
 
 CONTAINS_STAR = re.compile(r"^.*[*].*$")
 CONTAINS_CF_PARAM = re.compile(r"(\$\{[\w\:]+\})")
+CF_SUB_TOKEN = re.compile(r"\$\{(?:!([^${}]+)|([\w\:]+))\}")  # ${!Literal} or ${Name}
 CONTAINS_SSM_PARAMETER = re.compile(r"{{resolve:ssm:([a-zA-Z0-9_./-]+:\d+)}}")
 
 IPV4_ZERO_VALUE = "0.0.0.0/0"
